@@ -1,5 +1,6 @@
 import ERP.Lemmas.EStep
 import ERP.Properties.C03
+import ERP.Lemmas.GenArith
 /-! # C04 — Extruder coordinate and extruded amounts are preserved outside regions
 
 `phys` executes what the filter forwards, `virt` executes the unfiltered file.  The theorems hold
